@@ -4,6 +4,7 @@
 From Aranya Require Import base.Tactics gen.GenQueue gen.GenSync model.Dag model.TravQueue model.Wire model.SyncStore model.SyncResp model.SyncReq
   proofs.TravQueueVec proofs.TravQueueMoves proofs.TravQueueSpec proofs.TravQueueProofs
   proofs.SyncStoreProofs proofs.SyncQueueFacts proofs.SyncRespProofs proofs.SyncSessionProofs.
+From Coq Require Import Sorting.Sorted.
 Local Open Scope N_scope.
 
 (** an outcome that is neither a panic, nor fuel exhaustion, nor [Bug] (a panic under debug assertions) *)
@@ -396,3 +397,64 @@ Example ex_receive :
   /\ (* a foreign session *)
   snd (receive true (q_set (requester_new 0 8) QStart) ex_resp) = RErr ESessionMismatch.
 Proof. vm_compute. repeat split; reflexivity. Qed.
+
+(** * Whole sessions: any sequence of received byte strings.
+    [recv_all] feeds the byte strings to [receive] in order and records the
+    expected index at each ACCEPTED response (which, by
+    [accepts_only_own_session_in_order], is the index that response carried). *)
+Fixpoint recv_all (dbg : bool) (q : requester) (bs : list (list N)) : requester * list N :=
+  match bs with
+  | [] => (q, [])
+  | b :: r =>
+    let '(q', res) := receive dbg q b in
+    let '(qf, acc) := recv_all dbg q' r in
+    (qf, match res with ROk (Some _) => q_next q :: acc | _ => acc end)
+  end.
+
+Lemma receive_step dbg q b :
+  let '(q', res) := receive dbg q b in
+  q_sid q' = q_sid q /\ q_next q <= q_next q' /\
+  (forall cs, res = ROk (Some cs) -> q_next q' = q_next q + 1).
+Proof.
+  unfold receive. destruct (dec_resp b) as [m rest|]; [|cbn; split; [reflexivity|split; [lia|discriminate]]].
+  unfold get_sync_commands.
+  destruct (negb (resp_sid m =? q_sid q)); [cbn; split; [reflexivity|split; [lia|discriminate]]|].
+  destruct m as [sid idx ms|sid mx rem|sid h|sid].
+  - destruct (negb (start_or_waiting (q_state q))); [cbn; split; [reflexivity|split; [lia|discriminate]]|].
+    destruct (negb (idx =? q_next q)); [cbn; split; [reflexivity|split; [lia|discriminate]]|].
+    destruct (usize_max <=? q_next q); [cbn; split; [reflexivity|split; [lia|destruct dbg; discriminate]]|].
+    destruct (slice_cmds _ 0 ms); [|cbn; split; [reflexivity|split; [lia|discriminate]]].
+    destruct (Nat.ltb _ _); cbn; (split; [reflexivity|split; [lia|]]); [destruct dbg; discriminate|reflexivity].
+  - destruct (negb (start_or_waiting (q_state q))); [cbn; split; [reflexivity|split; [lia|discriminate]]|].
+    destruct (negb (mx =? q_next q)); cbn; (split; [reflexivity|split; [lia|discriminate]]).
+  - destruct (q_state q); cbn; (split; [reflexivity|split; [lia|discriminate]]).
+  - cbn. split; [reflexivity|split; [lia|discriminate]].
+Qed.
+
+Definition session_indexes_increase_stmt : Prop :=
+  forall (dbg : bool) (bs : list (list N)) (q qf : requester) (acc : list N),
+  recv_all dbg q bs = (qf, acc) ->
+  q_sid qf = q_sid q /\ q_next q <= q_next qf /\
+  StronglySorted N.lt acc /\ Forall (fun i => q_next q <= i < q_next qf) acc.
+Lemma session_indexes_increase_proof : session_indexes_increase_stmt.
+Proof.
+  intros dbg bs. induction bs as [|b r IH]; cbn [recv_all]; intros q qf acc H.
+  - inv H. split; [reflexivity|]. split; [lia|]. split; constructor.
+  - pose proof (receive_step dbg q b) as Hs.
+    destruct (receive dbg q b) as [q' res]. destruct Hs as (Hsid & Hle & Hacc).
+    destruct (recv_all dbg q' r) as [qf' acc'] eqn:E. inv H.
+    destruct (IH _ _ _ E) as (Hsid' & Hle' & Hsorted & Hall).
+    split; [congruence|]. split; [lia|].
+    assert (Hall' : Forall (fun i => q_next q <= i < q_next qf) acc').
+    { eapply Forall_impl; [|exact Hall]. cbn. intros i Hi. lia. }
+    destruct res as [[cs|]|e|s|]; try (split; assumption).
+    specialize (Hacc cs eq_refl). split.
+    + constructor; [exact Hsorted|]. eapply Forall_impl; [|exact Hall]. cbn. intros i Hi. lia.
+    + constructor; [lia|exact Hall'].
+Qed.
+
+(** Non-vacuity: the example response is accepted once (index 0); replayed
+    copies of it, a truncated copy and garbage are all refused afterwards. *)
+Example session_indexes_example :
+  snd (recv_all true (q_set (requester_new 0 7) QStart) [ex_resp; ex_resp; removelast ex_resp; [255; 255]; ex_resp]) = [0].
+Proof. vm_compute. reflexivity. Qed.
